@@ -455,6 +455,7 @@ def _guarded(ctx, fn):
         raise PathAbort()
     _STATE["margin"] = True
     _STATE["fu0"] = ctx.stats.feas_unknown
+    _STATE["tw0"] = (ctx.stats.twins, ctx.stats.twins_sat)
     try:
         fn()
     except Undecided as e:
@@ -475,6 +476,11 @@ def _guarded(ctx, fn):
         # and is now proved infeasible); without one, the margin bands themselves emptied the path: report it
         if ctx.pos > 0 and ctx.stats.feas_unknown == _STATE.get("fu0", 0):
             ctx.stats.errors.append("path became infeasible under the margin policy after %d decisions" % ctx.pos)
+        elif ctx.pos > 0:
+            # the reachability twin of this path came back unsat: it only resolved the earlier feasibility 'unknown'
+            # (the path is infeasible and is not counted); do not leave it in the vacuity statistics
+            t0, s0 = _STATE.get("tw0", (ctx.stats.twins, ctx.stats.twins_sat))
+            ctx.stats.twins = t0 + (ctx.stats.twins_sat - s0)
         raise
     finally:
         _STATE["margin"] = False
